@@ -48,9 +48,11 @@ theorem api_multi : apiMulti .running .dup = .unsupported ∧ apiMulti .booting 
 
 /-! ### Register / Enroll deliver exactly one result (hand-over model, Model/Handover.lean)
 
-Proved in Props/Handover.lean for every reachable state: an accepted call gets at most one result; it is still
-without one exactly while its registration waits in a queue; once the in-shutdown flag is set no call is accepted;
-and the recorded finding: a call accepted during shutdown is never answered. -/
+Proved in Props/Handover.lean for every reachable state: an accepted call gets at most one result; it is without one
+exactly while its registration waits in a queue; when everything has stopped every accepted call has been answered -
+with a connection whose OnOpen has run, or with an error (its descriptor closed, OnOpen never run); once the
+in-shutdown flag is set no call is accepted. (Until the fix "registrations handed to an event loop that has exited are
+aborted" a call accepted during shutdown was never answered: former theorem `register_unanswered_reachable`.) -/
 theorem results_at_most_once (s : Handover.State) (h : Handover.Reachable s) :
     s.results.Nodup ∧ (∀ fd ∈ s.results, fd ∈ s.enrolled) ∧ s.enrolled.Nodup :=
   Props.Handover.results_at_most_once s h
@@ -59,14 +61,18 @@ theorem unanswered_are_pending (s : Handover.State) (h : Handover.Reachable s) :
     ∀ fd, fd ∈ Handover.unanswered s ↔ (fd ∈ s.enrolled ∧ fd ∈ Handover.pending s) :=
   Props.Handover.unanswered_are_pending s h
 
+theorem final_all_answered (s : Handover.State) (h : Handover.Reachable s) (hf : Handover.Final s = true) :
+    Handover.unanswered s = [] :=
+  Props.Handover.final_all_answered s h hf
+
+theorem failed_results (s : Handover.State) (h : Handover.Reachable s) :
+    (∀ fd ∈ s.failed, fd ∈ s.results ∧ fd ∈ s.closed ∧ fd ∉ s.opened.map Prod.fst) ∧
+    (∀ fd ∈ s.results, fd ∉ s.failed → fd ∈ s.opened.map Prod.fst) :=
+  Props.Handover.failed_results s h
+
 theorem no_enrolment_after_flag (s : Handover.State) (hs : s.inShutdown = true) (l : Nat) :
     Handover.step s (.enroll l) = s :=
   Props.Handover.no_enrolment_after_flag s hs l
-
-theorem register_unanswered_reachable :
-    let s := Handover.run (Handover.init 1) [.requestStop, .postSentinels, .exec 0, .enroll 0, .acceptorExit, .setFlag]
-    Handover.Final s = true ∧ s.inShutdown = true ∧ Handover.unanswered s = [0] :=
-  Props.Handover.register_unanswered_reachable
 
 /-! Non-vacuity: a complete life of the small-step system - a connection is served, Stop is requested, the loop runs
 its sentinel, closes the connection and exits, the stopper sets the flag - reaches the state the theorems speak of;
